@@ -308,6 +308,88 @@ def analyse_class(ctx, relpath, cls, rid):
     return memo, reads, results
 
 
+def container_model(ctx):
+    """FeatureContainer run by the abstract interpreter (numpy and the lru_cache semantics of its memoised lookups included) through add / query histories: features
+    with coordinates 0..6 (nested, identical and zero-length ones) are added in three batches; after every batch every point (all strands, all four lookup variants)
+    and every short range is queried TWICE and compared with the plain definition over the features added so far.  (ok, queries, witness) / None.  Cached per run."""
+    if hasattr(ctx, '_container_model'):
+        return ctx._container_model
+    import itertools
+    from ..consteval import run_function, Raised, Unfoldable, module_scope, Instance
+    ctx._container_model = None
+    try:
+        env = module_scope(ctx.ix, FEATURES)
+        cls = env.get(CLS)
+        if cls is None:
+            return None
+    except Exception:
+        return None
+
+    def hook(ev, call, env_):
+        d = dotted(call.func) or ''
+        if d == 'locals':
+            return {}
+        if d.endswith('debugMsg') or d == 'print':
+            return None
+        return NotImplemented
+
+    def call(inst, name, *a, **kw):
+        m = cls.method(name)
+        sc = dict(m[1].scope)
+        sc['__class__'] = m[1]
+        sc['self'] = inst
+        return run_function(m[0], [inst] + list(a), kw, env=sc, call_hook=hook, budget=400000)
+    histories = [
+        [[(1, 3, '+')], [(2, 2, '-'), (0, 5, '+')], [(4, 6, '-')]],
+        [[(2, 4, '+'), (2, 4, '-')], [(0, 0, '+')], [(3, 3, '+'), (5, 6, '+')]],
+        [[(0, 1, '+'), (3, 4, '+'), (6, 6, '-')], [(2, 2, '+')], [(1, 5, '-')]],
+        [[(5, 6, '+')], [(0, 6, '-')], [(1, 1, '+'), (1, 1, '+')]],
+    ]
+    n = 0
+    try:
+        for hist in histories:
+            for c in itertools.chain.from_iterable(cl.memo.clear() or [] for cl in [cls] + list(cls.bases)):
+                pass
+            inst = Instance(cls)
+            call(inst, '__init__')
+            have = []
+            k = 0
+            for batch in hist:
+                for (a, b, st) in batch:
+                    k += 1
+                    call(inst, 'addFeature', 'c', a, b, f'f{k}', strand=st)
+                    have.append((a, b, f'f{k}', st, None))
+                for rep in (1, 2):
+                    for lo, hi in [(x, y) for x in range(0, 7) for y in range(x, min(x + 3, 7))]:
+                        for strand in (None, '+'):
+                            n += 1
+                            got = sorted(tuple(x) for x in call(inst, 'findFeaturesBetween', 'c', lo, hi, strand))
+                            want = sorted(ft for ft in have if ft[0] <= hi and ft[1] >= lo and (strand is None or ft[3] == strand))
+                            if got != want:
+                                ctx._container_model = (False, n, {'features added so far (start, end, strand)': [(f_[0], f_[1], f_[3]) for f_ in have], 'query': f'findFeaturesBetween(c, {lo}, {hi}, strand={strand})',
+                                                                   'asked for the': f'{rep}. time after the last add', 'returned': [(g_[0], g_[1], g_[3]) for g_ in got], 'overlapping': [(w_[0], w_[1], w_[3]) for w_ in want]})
+                                return ctx._container_model
+                    for p_ in range(0, 7):
+                        for strand in (None, '+', '-'):
+                            for optim in (None, 'nb', 'optim', 'plain'):
+                                if optim is not None and (strand == '-' or rep == 2):
+                                    continue
+                                n += 1
+                                kw = {} if optim is None else {'optim': optim}
+                                got = sorted(tuple(x) for x in call(inst, 'findFeaturesAt', 'c', p_, strand, **kw))
+                                want = sorted(ft for ft in have if ft[0] <= p_ <= ft[1] and (strand is None or ft[3] == strand))
+                                if got != want:
+                                    ctx._container_model = (False, n, {'features added so far (start, end, strand)': [(f_[0], f_[1], f_[3]) for f_ in have], 'query': f'findFeaturesAt(c, {p_}, strand={strand}' + (f', optim={optim})' if optim else ')'),
+                                                                       'asked for the': f'{rep}. time after the last add', 'returned': [(g_[0], g_[1], g_[3]) for g_ in got], 'containing': [(w_[0], w_[1], w_[3]) for w_ in want]})
+                                    return ctx._container_model
+    except (Unfoldable, Raised):
+        return None
+    except Exception:
+        return None
+    ctx._container_model = (True, n, None)
+    return ctx._container_model
+
+
 @rule('C16', 'C16-R1', 'no memoised lookup outlives a mutation: every method of FeatureContainer that writes a field a '
                        'memoised lookup (transitively) reads clears that lookup\'s cache after its last write on every path '
                        '(or, for re-indexers that query while rebuilding, before its first write and first internal lookup)')
@@ -601,6 +683,21 @@ def r8(ctx):
     C15.aligned_blocks_rule(ctx, 'C16-R8')
 
 
+@rule('C16', 'C16-R9', 'the container as a whole, run by the abstract interpreter through add / query histories (numpy and the lru_cache of the memoised lookups modelled): after every '
+                       'batch of added features every range query and every point query (all strands, all lookup variants), asked twice, returns exactly the features of the plain '
+                       'definition over everything added so far - nothing stale, nothing missing, also directly after an add and for nested, identical and zero-length features')
+def r9(ctx):
+    c = ctx.ix.cls(FEATURES, CLS)
+    m = container_model(ctx)
+    if m is None:
+        ctx.emit('C16-R9', True, FEATURES, c, 'FeatureContainer uses constructs outside the interpreted subset: decided by the structural rules only', key='container-model', nontrivial=False)
+        return
+    ok, n, wit = m
+    ctx.counters['interpreted_cases'] += n
+    ctx.emit('C16-R9', ok, FEATURES, c, f'{n} queries over 4 add / query histories: every answer equals the plain definition over the features added so far' if ok else f'query differs from the definition: {wit}',
+             key='container-model', witness=wit, what='FeatureContainer: a query returns something other than the overlapping / containing features of the current state')
+
+
 META = {
     'text': ('Decides the history clause: for every method of FeatureContainer that writes a field which a functools-memoised '
              'lookup (findFeaturesAt, findNearestFeature; computed, not listed) transitively reads, the lookup\'s cache is cleared '
@@ -615,6 +712,33 @@ META = {
 @rule('C16', 'C16-R4', 'interval predicates of the range / point queries are the closed-interval ones: overlap test, scan stop, strand filter, '
                        'start bound (features with start <= coordinate) and end filter (end >= coordinate)')
 def r4(ctx):
+    from ..core import Ctx, VIOLATED, UNDECIDED
+    sub = Ctx(ctx.ix, 'C16', ctx.tier)
+    err = None
+    try:
+        _r4_structural(sub)
+    except AnalysisError as e_:
+        err = e_
+    except Exception as e_:
+        err = AnalysisError(f'structural reading failed ({type(e_).__name__}: {e_})')
+    for k_, v_ in sub.counters.items():
+        ctx.counters[k_] = (ctx.counters.get(k_, set()) | v_) if isinstance(v_, set) else ctx.counters.get(k_, 0) + v_
+    open_ = [o for o in sub.obligations if o.status in (VIOLATED, UNDECIDED)]
+    if err is None and not open_:
+        ctx.obligations.extend(sub.obligations)
+        return
+    m = container_model(ctx)
+    if m is None or not m[0]:
+        ctx.obligations.extend(sub.obligations)       # the model's own finding is reported by C16-R9
+        if err is not None:
+            raise err
+        return
+    ctx.obligations.extend([o for o in sub.obligations if o not in open_])
+    ctx.emit('C16-R4', True, FEATURES, ctx.ix.cls(FEATURES, CLS), f'interval predicates decided by the container model ({m[1]} queries equal the closed-interval definition); the structural reading did not follow '
+             f'{len(open_)} construct(s) of the restructured lookups', key='predicates-by-model')
+
+
+def _r4_structural(ctx):
     from ..domains import check_pred, linform, Lin
     methods = class_methods(ctx.ix, FEATURES, CLS)
     f = methods.get('findFeaturesBetween')
